@@ -21,6 +21,7 @@ import (
 	"path/filepath"
 	"sort"
 	"strconv"
+	"strings"
 	"sync"
 	"sync/atomic"
 	"testing"
@@ -281,6 +282,13 @@ func Run[S any](t *testing.T, p Prop[S]) {
 	rapid.Check(t, func(rt *rapid.T) {
 		s := gen.Draw(rt, "script")
 		o, js := r.exec(s)
+		if o.Err != nil && o.Known != "" {
+			// a listed known finding met by a generated case: excluded from the search and counted
+			r.mu.Lock()
+			r.frag.Skips["known finding met and excluded: "+strings.SplitN(o.Known, " ", 2)[0]]++
+			r.mu.Unlock()
+			return
+		}
 		if o.Err != nil {
 			r.mu.Lock()
 			r.frag.Violations++
